@@ -1,5 +1,6 @@
 //! simworld — deterministic simulation with fault injection for awslabs/tough (see DESIGN.md).
 
+mod c01;
 mod c06;
 mod classify;
 mod engine;
@@ -45,6 +46,7 @@ fn main() {
     let id = args.get(2).map(String::as_str).unwrap_or("");
     let rest: Vec<String> = args.iter().skip(3).cloned().collect();
     let code = match id {
+        "C01" => dispatch(&c01::C01, mode, &rest),
         "C06" => dispatch(&c06::C06, mode, &rest),
         _ => {
             eprintln!("unknown property {id}");
